@@ -131,11 +131,23 @@ template<typename T> struct TotalLess { bool operator()(const T& a, const T& b) 
 // ------------------------------------------------------------------------------- model
 template<typename T> struct Model {
   typedef typename Tr<T>::Cmp Cmp;
-  std::vector<T> v;        // accepted items; sorted by total_less (a refinement of Cmp) after prep()
-  bool sorted = true;
-  void add(const T& x) { if (Tr<T>::accepted(x)) { v.push_back(x); sorted = false; } }
-  void absorb(const Model& o) { if (!o.v.empty()) { v.insert(v.end(), o.v.begin(), o.v.end()); sorted = false; } }
-  void prep() { if (!sorted) { std::sort(v.begin(), v.end(), TotalLess<T>()); sorted = true; } }
+  std::vector<T> v;        // accepted items; v[0, nsorted) sorted by total_less (a refinement of Cmp); all of it after prep()
+  size_t nsorted = 0;
+  void add(const T& x) { if (Tr<T>::accepted(x)) v.push_back(x); }
+  void prep() {
+    if (nsorted == v.size()) return;
+    const auto mid = v.begin() + static_cast<std::ptrdiff_t>(nsorted);
+    std::sort(mid, v.end(), TotalLess<T>());
+    if (nsorted) std::inplace_merge(v.begin(), mid, v.end(), TotalLess<T>());
+    nsorted = v.size();
+  }
+  void absorb(Model& o) {
+    if (o.v.empty()) return;
+    prep(); o.prep();
+    v.insert(v.end(), o.v.begin(), o.v.end());
+    std::inplace_merge(v.begin(), v.begin() + static_cast<std::ptrdiff_t>(nsorted), v.end(), TotalLess<T>());
+    nsorted = v.size();
+  }
   uint64_t count_lt(const T& x) const { return static_cast<uint64_t>(std::lower_bound(v.begin(), v.end(), x, Cmp()) - v.begin()); }
   uint64_t count_le(const T& x) const { return static_cast<uint64_t>(std::upper_bound(v.begin(), v.end(), x, Cmp()) - v.begin()); }
   bool offered(const T& x) const { return std::binary_search(v.begin(), v.end(), x, TotalLess<T>()); }
@@ -562,10 +574,10 @@ void run_case_t(uint64_t idx, Rng& r) {
   // size budget of an estimating leaf
   const bool huge = TH && arith && r.chance(0.01);
   const bool big = !huge && r.chance(TH ? 0.15 : 0.05);
-  const uint64_t est_max = huge ? 1000000 : (big ? (TH ? 100000 : 12000) : (TH ? 6000 : 1500));
+  const uint64_t est_max = huge ? 1000000 : (big ? (TH ? 100000 : 6000) : (TH ? 4000 : 800));
   const double p_special = r.chance(0.35) ? (r.chance(0.2) ? 0.5 : 0.03) : 0.0;
   const bool overlap = r.coin();
-  const unsigned dense = TH ? 64 : 40;
+  const unsigned dense = TH ? 48 : 32;
   describe(fam + " type=" + TT::name() + " " + F::cfg_str(cfg) + " leaves=" + std::to_string(nleaves) + " k=" + std::to_string(k_common) +
            (equal_k ? "(all)" : "(first)") + " est_max=" + std::to_string(est_max) + " p_special=" + str(p_special) + " coin_seeds=" + std::to_string(s1) + "," + std::to_string(s2));
   fcount(fam, std::string("type_") + TT::name());
@@ -652,7 +664,7 @@ void run_case_t(uint64_t idx, Rng& r) {
     pool.erase(pool.begin() + static_cast<std::ptrdiff_t>(b));
   }
   N& root = pool[0];
-  const Observed fo = obs(root, "whole-tree", true, TH ? 256 : 128);
+  const Observed fo = obs(root, "whole-tree", true, TH ? 200 : 96);
   fcount(fam, std::string("root_") + mode_name(fo.empty, fo.est));
   if (want_sample()) sample("{\"family\":" + jstr(fam) + ",\"config\":" + jstr(G().cur_desc) + ",\"leaves\":" + jstr(sample_leaves) + ",\"root_n\":" + std::to_string(fo.n) +
                             ",\"root_retained\":" + std::to_string(fo.retained) + ",\"root_estimation\":" + (fo.est ? "true" : "false") + "}");
